@@ -15,7 +15,7 @@ from props import PROPS
 def scratch_repo(patch):
     d = tempfile.mkdtemp(prefix="cosim-mut-", dir="/tmp")
     subprocess.check_call(["rsync", "-a", "--exclude", "_build", "--exclude", ".git", "/repo/src", d + "/"])
-    r = subprocess.run(["patch", "-p1", "-d", d, "-i", patch, "--no-backup-if-mismatch"], stdout=subprocess.PIPE, stderr=subprocess.STDOUT, text=True)
+    r = subprocess.run(["patch", "--binary", "-p1", "-d", d, "-i", patch, "--no-backup-if-mismatch"], stdout=subprocess.PIPE, stderr=subprocess.STDOUT, text=True)
     if r.returncode != 0:
         shutil.rmtree(d); raise RuntimeError("patch %s does not apply:\n%s" % (patch, r.stdout))
     return d
